@@ -798,7 +798,7 @@ def run_story(h, d, symdir, probes):
     res = []
     for l in out[1:-1]:
         _, nm, a, s, sid, mp = l.split()
-        res.append(None if nm == "-" else (int(a), int(s), unhx(nm)))
+        res.append((None if nm == "-" else (int(a), int(s), unhx(nm)), None if mp == "-" else unhx(mp)))
     return res
 
 
@@ -807,6 +807,12 @@ def cans(r):
 
 
 D_EVALS = [
+    # module shown for the address: model (find_task_session + find_map) and ground truth
+    ("mmod", "bad_indices (fun cm => match cm with ((dd, gs, tl, prs), (gm, ms)) => let lk := open_data dem_plain dd in "
+             "forallb (fun pm => match pm with ((tid, t, a, ans), m) => match resolve_map lk tid t a, m with Some x, Some y => str_eqb x y "
+             "| None, None => true | _, _ => false end end) (combine prs ms) end) (combine dc dm) 0"),
+    ("vmod", "bad_indices (fun cm => match cm with ((dd, gs, tl, prs), (gm, ms)) => "
+             "forallb (fun pm => match pm with ((tid, t, a, ans), m) => ok_module gm tl tid t a m end) (combine prs ms) end) (combine dc dm) 0"),
     ("mismatch", "bad_indices (fun c => match c with (dd, gs, tl, prs) => let lk := open_data dem_plain dd in "
                  "forallb (fun pr => match pr with (tid, t, a, ans) => ans_eqb (resolve lk tid t a) ans end) prs end) dc 0"),
     ("violations", "bad_indices (fun c => match c with (dd, gs, tl, prs) => "
@@ -832,8 +838,9 @@ def part_datadirs(ctx, h):
         symdir = os.path.join(d, "syms") if withsyms else d
         maps = story_files(st, d, symdir)
         probes = story_probes(rng, st)
-        ans = run_story(h, d, symdir, probes)
-        cases.append((st, maps, probes, ans, withsyms))
+        ansm = run_story(h, d, symdir, probes)
+        ans = [x[0] for x in ansm]
+        cases.append((st, maps, probes, ans, withsyms, [x[1] for x in ansm]))
         nsess = len(st.sessions)
         tags = ["D:sessions=%d" % min(nsess, 4), "D:tasks=%d" % min(len(st.timeline), 5)]
         if any(s["dl"] for s in st.sessions):
@@ -860,22 +867,27 @@ def part_datadirs(ctx, h):
 
 def eval_datadirs(ctx, cases):
     defs = D_DEFS + "Definition dc : list (datadir * list gt_session * list (Z * list (Z * nat)) * list (Z * Z * Z * option (Z * Z * str))) := [\n"
-    items = []
-    for st, maps, probes, ans, withsyms in cases:
+    items, mitems = [], []
+    for st, maps, probes, ans, withsyms, mods in cases:
         gs, tl = cgt(st)
         items.append("(%s, %s, %s, [%s])" % (cdatadir(st, maps, withsyms), gs, tl,
                                                "; ".join("(%d, %d, %d, %s)" % (p[0], p[1], p[2], cans(a)) for p, a in zip(probes, ans))))
+        gm = "[%s]" % "; ".join("[%s]" % "; ".join("(%d, %d, %s)" % (a, b, cstr(m)) for a, b, m in s_["maps"]) for s_ in st.sessions)
+        mitems.append("(%s, [%s])" % (gm, "; ".join(copt(m, cstr) for m in mods)))
     defs += ";\n".join(items) + "\n].\n"
+    defs += "Definition dm : list (list (list (Z * Z * str)) * list (option str)) := [\n%s\n].\n" % ";\n".join(mitems)
     res = coq.run_cases(ctx, "cases_d", PRE, defs, D_EVALS, timeout=1500)
     if res is None:
         return
     r = {k: coq.parse_nat_list(v) for k, v in res.items()}
-    for i in r["violations"][:2]:
-        st, maps, probes, ans, withsyms = cases[i]
-        ctx.violation("an address is resolved to the wrong symbol / session (task_find_sym_addr against the ground truth)",
-                      story_replay(st, probes, ans, withsyms), True)
-    if r["mismatch"] and not r["violations"]:
-        st, maps, probes, ans, withsyms = cases[r["mismatch"][0]]
+    for i in sorted(set(r["violations"] + r["vmod"]))[:2]:
+        st, maps, probes, ans, withsyms, mods = cases[i]
+        ctx.violation("an address is resolved to the wrong symbol / session (task_find_sym_addr against the ground truth)"
+                      if i in r["violations"] else "an address is attributed to the wrong module (find_task_session + find_map against the ground truth)",
+                      dict(story_replay(st, probes, ans, withsyms), impl_modules=[None if m is None else m.decode("latin1") for m in mods]), True)
+    r["mismatch"] = sorted(set(r["mismatch"] + r["mmod"]))
+    if r["mismatch"] and not r["violations"] and not r["vmod"]:
+        st, maps, probes, ans, withsyms, mods = cases[r["mismatch"][0]]
         ctx.violation("model and utils/session.c+symbol.c disagree on address resolution (%d directories)" % len(r["mismatch"]),
                       story_replay(st, probes, ans, withsyms), False)
 
@@ -893,10 +905,11 @@ def replay_datadir(ctx, h, obj):
     symdir = os.path.join(d, "syms") if withsyms else d
     maps = story_files(st, d, symdir)
     probes = [tuple(p) for p in obj["probes"]]
-    ans = run_story(h, d, symdir, probes)
+    ansm = run_story(h, d, symdir, probes)
+    ans = [x[0] for x in ansm]
     ctx.case(key="replay", sample={"impl": [None if a is None else a[2].decode("latin1") for a in ans][:8]})
     ctx.log("replayed data directory: %d probes, %d resolved" % (len(probes), sum(1 for a in ans if a)))
-    eval_datadirs(ctx, [(st, maps, probes, ans, withsyms)])
+    eval_datadirs(ctx, [(st, maps, probes, ans, withsyms, [x[1] for x in ansm])])
 
 
 def story_replay(st, probes, ans, withsyms):
@@ -1000,6 +1013,56 @@ def part_e2e(ctx, objdir):
     if len(set(b[0] for _, b in runs if b)) > 1:
         ctx.tag("E:aslr-bases-differ")
 
+
+
+
+def part_rawdisplay(ctx, objdir):
+    """synthetic directory, real `uftrace replay`: an address inside a symbol is printed under its name, every other
+    address as <hex of that address> (first byte, last byte, one past, gaps, unmapped)"""
+    rng = ctx.rng
+    for k in range(ctx.n(2, 12)):
+        tab = [(a % 0x80000, sz, t, "f%d_%s" % (i, n.replace(" ", "_").replace(":", "_"))) for i, (a, sz, t, n) in
+               enumerate(gen_file_tab(rng, rng.choice([3, 5, 8]))) if t != "P" and sz < 0x8000]
+        if not tab:
+            continue
+        base = rng.choice([0x400000, 0x555555554000])
+        probes = [p for p in probes_of(rng, tab, 2) if p < 0x100000][:24] + [0x7000000 - base]
+        recs, t = [], 1000
+        for pr in probes:
+            recs += [{"t": t, "type": datadir.ENTRY, "depth": 0, "addr": base + pr}, {"t": t + 5, "type": datadir.EXIT, "depth": 0, "addr": base + pr}]
+            t += 10
+        d = os.path.join(ctx.scratch, "rawdisp%d" % k)
+        datadir.write({"syms": [(a, sz, ty, n) for a, sz, ty, n in tab], "base": base,
+                       "tasks": [{"tid": 100, "pid": 100, "recs": recs}]}, d)
+        rc, out, err = datadir.uftrace(objdir, "replay", d, ["-f", "none", "--demangle=no"])
+        shown = funcs_of_replay(out)
+        if rc != 0 or len(shown) != len(probes):
+            ctx.broken("rawdisplay: replay failed or shows %d of %d calls (rc=%d): %s" % (len(shown), len(probes), rc, (out + err)[-300:]))
+            continue
+        ans = []
+        for pr, nm in zip(probes, shown):
+            if nm == "<%x>" % (base + pr):
+                ans.append(None)
+            else:
+                ans.append(nm)          # a name - or a raw address that is not the record's address (judged as a wrong name)
+        defs = "Definition wt : symtab := %s.\nDefinition wp : list (Z * option str) := [%s].\n" % (
+            ctab(tab), "; ".join("(%d, %s)" % (pr, copt(a, cstr)) for pr, a in zip(probes, ans)))
+        res = coq.run_cases(ctx, "cases_w%d" % k, PRE, defs, [
+            ("v", "bad_indices (fun pr => match spec_find wt (fst pr), snd pr with Some s, Some nm => str_eqb (s_name s) nm "
+                  "| None, None => true | _, _ => false end) wp 0"),
+            ("m", "bad_indices (fun pr => match find_sym wt (fst pr), snd pr with Some s, Some nm => str_eqb (s_name s) nm "
+                  "| None, None => true | _, _ => false end) wp 0")])
+        ctx.case(key=("W", tuple(tab), tuple(probes), base), tags=["E:raw-address-display", "E:synthetic-replay"], size=len(probes))
+        if res is None:
+            continue
+        v, m = coq.parse_nat_list(res["v"]), coq.parse_nat_list(res["m"])
+        if v:
+            ctx.violation("replay of a synthetic directory: an address inside a symbol is not shown under its name, or an address outside "
+                          "every symbol is not shown as its raw address", {"part": "E", "table": tab, "base": base,
+                          "wrong": [["%x" % (base + probes[i]), shown[i]] for i in v[:6]]}, True)
+        elif m:
+            ctx.violation("model find_sym and `uftrace replay` disagree on a synthetic directory", {"part": "E", "table": tab, "base": base,
+                          "first": ["%x" % (base + probes[m[0]]), shown[m[0]]]}, False)
 
 
 # ---------------------------------------------------------------- R: real recordings with static initialisers
@@ -1861,7 +1924,7 @@ def run(ctx):
     objdir, h = setup(ctx)
     for name, f in (("K kernels", lambda: part_kernels(ctx, h)), ("L lookups", lambda: part_lookup(ctx, h)),
                     ("S symbol files", lambda: part_symfiles(ctx, h)), ("M map files", lambda: part_maps(ctx, h, objdir)),
-                    ("D data directories", lambda: part_datadirs(ctx, h)), ("E end to end", lambda: part_e2e(ctx, objdir)),
+                    ("D data directories", lambda: part_datadirs(ctx, h)), ("E end to end", lambda: (part_e2e(ctx, objdir), part_rawdisplay(ctx, objdir))),
                     ("R real recordings with static initialisers", lambda: part_recordings(ctx, objdir)),
                     ("X real recordings across fork and exec", lambda: part_forkexec(ctx, objdir)),
                     ("P PLT entries of ELF files", lambda: part_plt(ctx, h, objdir))):
